@@ -1145,7 +1145,8 @@ impl Read for Message<'_> {
             Self::Encrypted { edata, .. } => edata.read(buf),
         }?;
 
-        if read == 0 {
+        // an empty `buf` says nothing about the end of the message
+        if read == 0 && !buf.is_empty() {
             self.check_trailing_data()?;
         }
 
